@@ -331,3 +331,49 @@ def run_source_keyed(P, rep, rule="R-KEYED.source"):
                      "(exact-keyed eager store vs. source-backed lazy/on-demand) no longer agree" % sorted(set(bad)))
         else:
             rep.ok(rule, site, P.where(fn), "name used verbatim")
+
+
+# ---------------------------------------------------------------------------------------
+# R-CACHEKEY: the lazy cache is written only under the requested name
+
+CACHE_TY = "HashMap<alloc::string::String, core::result::Result<alloc::sync::Arc<dyn liquid_core::runtime::renderable::Renderable"
+CACHE_WRITES = ("insert", "entry", "extend", "remove", "remove_entry", "clear", "retain", "get_mut", "drain", "try_insert", "raw_entry_mut",
+                "get_or_insert_with", "or_insert_with", "or_insert", "extract_if")
+KEY_COPIES = {"to_string", "to_owned", "into", "from", "clone", "as_ref", "deref", "as_str", "borrow", "to_string_lossy"}
+
+
+def run_cache_key(P, rep, rule="R-CACHEKEY"):
+    """Every write to the partial cache map (anywhere in partials/lazy.rs) is an `insert` whose key is a plain copy of a `&str`
+    parameter (the requested name): no second entry under a derived name (alias), no removal, no in-place update."""
+    n = 0
+    for fn in sorted(P.fns.values(), key=lambda f: f.id):
+        if not fn.file.endswith("partials/lazy.rs") or "::test" in fn.id:
+            continue
+        k = 0
+        for bi, t in P.calls(fn):
+            f = t.get("f")
+            if not f or not t["args"]:
+                continue
+            ol = op_local(t["args"][0])
+            if not ol or CACHE_TY not in P.local_ty(fn, ol[0]):
+                continue
+            last = f["id"].rsplit("::", 1)[1]
+            if last not in CACHE_WRITES:
+                continue
+            n += 1
+            site = "%s %s#%d" % (fn.key, last, k)
+            k += 1
+            if last != "insert":
+                rep.viol(rule, site, P.where(fn, t["line"]), "the partial cache is modified with `%s`: the only write is insert(requested name, compiled result)" % last)
+                continue
+            kl = op_local(t["args"][1])
+            locs, calls = backward_slice(fn, kl[0]) if kl else (set(), [])
+            params = [i for i in range(1, fn.argc + 1) if P.local_ty(fn, i) in ("&str", "&alloc::string::String")]
+            bad = [c["f"]["name"] for c in calls if c.get("f") and c["f"]["id"].rsplit("::", 1)[1] not in KEY_COPIES]
+            if not any(p_ in locs for p_ in params):
+                rep.viol(rule, site, P.where(fn, t["line"]), "the cache key does not derive from a name parameter")
+            elif bad:
+                rep.viol(rule, site, P.where(fn, t["line"]), "the cache key is transformed by `%s`: a partial is filed under a name other than the requested one" % bad[0])
+            else:
+                rep.ok(rule, site, P.where(fn, t["line"]), "insert(name.to_string(), result): key is a plain copy of the requested name")
+    rep.analysed[rule + ".writes"] = n
